@@ -86,6 +86,7 @@ type T struct {
 	Fields   []*F
 	N        int          // array length
 	Name     string       // non-empty: named (static) type
+	Named    bool         // scalar kinds: a defined type (type NFloat32 float32) instead of the predeclared one
 	RTStatic reflect.Type // for static types: the real Go type
 
 	once sync.Once
@@ -141,11 +142,34 @@ var (
 	rtNullTime   = reflect.TypeOf(null.Time{})
 )
 
+// defined (named) scalar types: same kinds, different type identity
+type (
+	NBool    bool
+	NInt     int
+	NInt16   int16
+	NInt32   int32
+	NInt64   int64
+	NFloat32 float32
+	NFloat64 float64
+	NString  string
+	NBytes   []byte
+)
+
+var namedScalars = map[Kind]reflect.Type{
+	KBool: reflect.TypeOf(NBool(false)), KInt: reflect.TypeOf(NInt(0)), KInt16: reflect.TypeOf(NInt16(0)), KInt32: reflect.TypeOf(NInt32(0)),
+	KInt64: reflect.TypeOf(NInt64(0)), KFloat32: reflect.TypeOf(NFloat32(0)), KFloat64: reflect.TypeOf(NFloat64(0)), KString: reflect.TypeOf(NString("")),
+	KBytes: reflect.TypeOf(NBytes(nil)),
+}
+
 // RT returns the reflect.Type (reflect.StructOf for structs).
 func (t *T) RT() reflect.Type {
 	t.once.Do(func() {
 		if t.RTStatic != nil {
 			t.rt = t.RTStatic
+			return
+		}
+		if nt, ok := namedScalars[t.K]; ok && t.Named {
+			t.rt = nt
 			return
 		}
 		switch t.K {
@@ -267,6 +291,10 @@ func (t *T) write(b *strings.Builder) {
 	case KStruct:
 		t.WriteStructBody(b)
 	default:
+		if t.Named {
+			b.WriteString("gen.N" + strings.ToUpper(t.K.String()[:1]) + t.K.String()[1:])
+			return
+		}
 		b.WriteString(t.K.String())
 	}
 }
@@ -495,7 +523,8 @@ func genType(r *rand.Rand, o TypeOpts, depth int) *T {
 		if o.NoTime && (k == KTime || k == KNullTime) {
 			continue
 		}
-		return &T{K: k}
+		_, canName := namedScalars[k]
+		return &T{K: k, Named: canName && r.IntN(10) == 0}
 	}
 }
 
